@@ -35,6 +35,8 @@ def classify(facts, g, bb, t):
             here = [e for e in inner if e[0] == bb]
             if r and r[0] == "agg" and r[2] == "Err":
                 continue
+            if r and r[0] == "call" and re.search(r"FromResidual<.*>>::from_residual$|::from_residual$", r[1]):
+                continue        # `?` in a body whose std combinators are not spliced in: an error return
             if inner and any(absint.mentions_call(r, e[4]) for e in inner):
                 mine += 1 if here else 0
             elif not inner and r and r[0] == "agg" and r[2] == "Ok" and absint.const_of(r[3]["0"]) == 0:
